@@ -1156,6 +1156,16 @@ func (s *manifestStore) deleteWithIndexing(ctx context.Context, target ocispec.D
 			return err
 		}
 		if err := s.indexReferrersForDelete(ctx, target, manifestJSON); err != nil {
+			var re *ReferrersError
+			if !errors.As(err, &re) || !re.IsReferrersIndexDelete() {
+				return err
+			}
+			// the referrers index has been updated and only the obsolete index
+			// could not be cleaned up: complete the deletion before reporting
+			// the cleanup error, so that the index does not miss a live manifest
+			if deleteErr := s.repo.delete(ctx, target, true); deleteErr != nil {
+				return deleteErr
+			}
 			return err
 		}
 	}
